@@ -54,6 +54,8 @@ def check_backward(ctx: Ctx):
     good = [i for i in P.leaves() if P.nodes[i].rg]
     inputs = [i for i in good if rng.random() < 0.7] or good[:1]
     rng.shuffle(inputs)
+    if rng.random() < 0.15:
+        inputs = inputs + [rng.choice(inputs)]      # a tensor listed twice (tied weights collected module by module)
     agg = weights_for(rng, m)
     chunk = rng.choice([None, 1, 2, m + 1])
     pre = rand_pre(rng, P, P.leaves())
@@ -68,7 +70,7 @@ def check_backward(ctx: Ctx):
         torch.autograd.backward([ts[t] for t in tensors], grad_tensors=split_w(P, tensors, as_w(agg, m), dtype),
                                 inputs=[ts[i] for i in inputs])
         tg = grads_of(ts, report)
-        merr, mg, _ = model_backward(ctx.driver, P, tensors, inputs, agg, chunk, False, pre, report)
+        merr, mg, _ = model_backward(ctx.driver, P, tensors, list(dict.fromkeys(inputs)), agg, chunk, False, pre, report)
         ctx.case(("bw", tuple(P.describe()), sx([tensors, inputs, list(agg), chunk or "None"]), str(dtype)),
                  nontrivial=rerr is None,
                  sample={"program": P.describe(), "tensors": tensors, "inputs": inputs, "agg": str(agg),
@@ -103,7 +105,14 @@ def check_mtl(ctx: Ctx):
     pre = rand_pre(rng, P, P.leaves())
     report = P.leaves()
     dtype = torch.float64
-    rerr, rg, _ = real_mtl(P, dtype, M.losses, M.features, tasks, shared, agg, chunk, True, pre, report)
+    real_tasks = tasks
+    if shared and len(shared) >= 2 and rng.random() < 0.25 and not M.multi_output_features():
+        # Jacobian descent on a STRICT subset of the trunk's parameters (the weights but not the biases), the task
+        # parameters left to their default: the un-listed trunk parameters belong to nobody and must be left alone
+        shared = rng.sample(shared, rng.randint(1, len(shared) - 1))
+        real_tasks = None
+        ctx.count("mtl_partial_shared_default_tasks")
+    rerr, rg, _ = real_mtl(P, dtype, M.losses, M.features, real_tasks, shared, agg, chunk, True, pre, report)
     ts = P.build(dtype)
     set_pre(P, ts, pre, dtype)
     w = as_w(agg, T)
